@@ -14,10 +14,13 @@ One output line per input line.
                             (its result may legitimately outlive a `&self` receiver) | 0 | err
   tied <row name>         → 1 (safe, every output region tied to an input: a borrow cannot
                             escape through it) | 0 (output region free / unsafe fn) | err
+  rows_c06                → falsifying rows of the C06 "doors" theorems with file:line, or `none`
+                            (each entry starts with `<theorem>: <row name> :: `)
   selfcheck               → 1 iff every generated key is the key of its string
 -/
 import HipVerif.Model.AutoTraitRows
 import HipVerif.Model.PubFns
+import HipVerif.Model.Doors
 
 open HipVerif.Model.AutoTrait
 open HipVerif.Model.PubFns
@@ -137,6 +140,20 @@ def rowsC17 : List String :=
     else [s!"unsafe_lifetime_sites: {HipVerif.Gen.PubFns.sites.length} sites generated, {reviewedSites.length} reviewed (a reviewed fn gained or lost a site)"]
   a ++ fw ++ b ++ c ++ d ++ e ++ g ++ h
 
+def rowsC06 : List String :=
+  let ds := HipVerif.Gen.Doors.doors
+  let a := ds.filterMap fun d =>
+    if HipVerif.Model.Doors.strDoorOk d then none else
+      some s!"str_doors_checked: {d.name} :: safe infallible fn makes a HipStr from non-UTF-8-typed input {d.sig} @ {d.loc}"
+  let b := ds.filterMap fun d =>
+    if HipVerif.Model.Doors.osDoorOk d then none else
+      some s!"os_doors_typed: {d.name} :: safe fn makes a HipOsStr/HipPath from raw bytes or unrecognised input {d.sig} @ {d.loc}"
+  let c := HipVerif.Model.Doors.unreviewedDoors.map fun d =>
+    s!"unchecked_doors_listed: {d.name} :: unreviewed unsafe door {d.sig} @ {d.loc}"
+  let e := HipVerif.Model.Doors.staleDoors.map fun k =>
+    s!"unchecked_doors_listed: {decKey k} :: reviewed unsafe door no longer present"
+  a ++ b ++ c ++ e
+
 def tiedAnswer (name : String) : String :=
   match HipVerif.Gen.PubFns.pubFns.find? (fun f => f.name == name) with
   | none => "err"
@@ -157,6 +174,7 @@ def answer (line : String) : String :=
   | ["extratypes"] => String.intercalate ";" (extraTypes.map (·.1))
   | ["rows_c05"] => join rowsC05
   | ["rows_c17"] => join rowsC17
+  | ["rows_c06"] => join rowsC06
   | ["sites"] => join (HipVerif.Gen.PubFns.sites.map showSite)
   | ["unsafe_rows"] =>
     join ((HipVerif.Gen.PubFns.pubFns.filter mustBeUnsafe).map
@@ -166,7 +184,9 @@ def answer (line : String) : String :=
     match HipVerif.Gen.PubFns.pubFns.find? (fun f => f.name == String.intercalate " " rest) with
     | none => "err"
     | some f => if borrowViewFns.contains f.simpleKey || neverBorrowed.contains f.key then "1" else "0"
-  | ["selfcheck"] => if keysOk HipVerif.Gen.PubFns.pubFns HipVerif.Gen.PubFns.sites then "1" else "0"
+  | ["selfcheck"] =>
+    if keysOk HipVerif.Gen.PubFns.pubFns HipVerif.Gen.PubFns.sites && HipVerif.Model.Doors.doorKeysOk
+    then "1" else "0"
   | _ => "err"
 
 end HipVerif.Driver.Tables
